@@ -200,3 +200,29 @@ def binding_selftest(rep, wd, events_path, label, k=6):
         raise ToolError("binding self-test FAILED for %s: corrupted events %s, rejected %s" % (label, expect, got))
     rep.extra.setdefault("binding_selftests", []).append({"corpus": label, "corrupted_events": len(expect), "rejected": len(got_corrupt)})
     return len(expect)
+
+
+CORPORA = {
+    # name: (generator module, quick cfg, thorough cfg, quick subsample, shards)
+    "c09": ("Hal/Gen_C09", "Hal/Gen_C09_quick", "Hal/Gen_C09_thorough", 0, 6),
+    "c08": ("Hal/Gen_C08", "Hal/Gen_C08_quick", "Hal/Gen_C08_thorough", 1200, 8),
+    "c07": ("Hal/Gen_C07", "Hal/Gen_C07_quick", "Hal/Gen_C07_thorough", 0, 8),
+    "mag": ("Hal/Gen_Mag", "Hal/Gen_Mag_quick", "Hal/Gen_Mag_thorough", 0, 4),
+}
+
+
+def run_corpus(rep, wd, name, tier, subsample_n=None):
+    """TLC generates the corpus, the harness runs it on the real back-ends, TLC validates the log."""
+    mod, qcfg, tcfg, qsub, shards = CORPORA[name]
+    quick = tier == "quick"
+    descs, n = gen_descs(rep, wd, mod, qcfg if quick else tcfg, name)
+    keep = subsample_n if subsample_n is not None else (qsub if quick else 0)
+    nd = subsample(descs, keep, common.seed())
+    events, bad = run_and_validate_sharded(rep, wd, descs, name, shards=shards if quick else 12)
+    rep.evaluations += len(events) * 8
+    rep.distinct += len(events)
+    ops = rep.extra.setdefault("ops_covered", {})
+    for e in events:
+        ops[e["op"]] = ops.get(e["op"], 0) + 1
+    rep.extra.setdefault("corpora", []).append({"corpus": name, "descriptors_in_scope": n, "descriptors_run": nd, "events": len(events)})
+    return events, bad
